@@ -483,6 +483,47 @@ func c12Run(r *mon.Run) {
 			r.Sample(map[string]any{"kind": "generated document", "text": string(doc)})
 		}
 	}
+	// (3) big documents: widths, depths and lengths around the usual thresholds (8 .. 257, 1 Ki, 4 Ki)
+	{
+		sizes := []int{8, 9, 16, 17, 32, 33, 64, 65, 128, 129, 256, 257, 1023, 1025, 4097}
+		bi := 0
+		big := func(doc string) {
+			if r.Mine(bi) {
+				c12Doc(r, []byte(doc), false)
+				c12Doc(r, []byte(doc), true)
+				c12Doc(r, []byte(doc+"\n x"), true)
+				c12Doc(r, []byte(doc[:len(doc)-1]), false) // cut short
+				r.Nontrivial("b", doc)
+				r.Count("big_documents", 1)
+			}
+			bi++
+		}
+		scalars := []string{"1", `"s"`, "true", "null", "-0.5e3", `"\u00e9"`, "{}", "[]"}
+		for _, n := range sizes {
+			var items, members []string
+			for i := 0; i < n; i++ {
+				v := scalars[(i+n)%len(scalars)]
+				items = append(items, v)
+				members = append(members, fmt.Sprintf(`"k%d":%s`, i, v))
+			}
+			big("[" + strings.Join(items, ",") + "]")
+			big("[ " + strings.Join(items, " ,\n ") + " ]")
+			big("{" + strings.Join(members, ",") + "}")
+			big("{\n" + strings.Join(members, ",\n") + "\n}")
+			for _, inner := range []string{"1", `"x"`, "{}", "[]", `{"a":[1,{"b":null}]}`} {
+				big(strings.Repeat("[", n) + inner + strings.Repeat("]", n))
+				big(strings.Repeat(`{"a":`, n) + inner + strings.Repeat("}", n))
+				big(strings.Repeat(`[{"a":`, n/2+1) + inner + strings.Repeat("}]", n/2+1))
+			}
+			for _, unit := range []string{"a", "é", "😀", `\n`, `\u0041`, `\\`, " "} {
+				big(`"` + strings.Repeat(unit, n) + `"`)
+				big(`{"` + strings.Repeat(unit, n) + `":"` + strings.Repeat(unit, n) + `"}`)
+			}
+			big(strings.Repeat("9", n))
+			big("-" + strings.Repeat("9", n) + "." + strings.Repeat("0", n) + "1e-" + strings.Repeat("0", n%7) + "5")
+			big("[" + strings.Repeat(" ", n) + "]")
+		}
+	}
 	// hook evidence
 	for name, cnt := range verifhook.ScanPairs()[verifhook.KindJSONDoc] {
 		r.Count("pair:jsondoc:"+shortState(name), cnt)
@@ -509,7 +550,7 @@ func init() {
 			stdjson.Unmarshal(raw, &c)
 			c12Doc(r, c.Doc, c.Trailing)
 		},
-		Rule:               "every byte string over a 31-symbol JSON alphabet ({ } [ ] : , quote backslash / u b 0 1 9 - + . e E t r f a l s n space LF é 0x1f 0x7f) up to length 6 (quick) / 7 (thorough), pruned only below prefixes that both the library and encoding/json reject because of an offending byte, plus generated documents (depth <= 7, all escape forms, random blanks) and their byte mutations / trailers; each text is checked in strict and trailing mode (texts up to 4 bytes and one in eight longer ones also with Len() before Check(), Check() repeated and all lexemes read before Check() on one object, which must answer like a fresh object): Check() vs encoding/json.Valid resp. a streaming Decoder, Len(), and for accepted texts the NextLexeme stream (nesting, spans, literal coverage) and the token tree vs encoding/json's. distinct_nontrivial = distinct texts (hashed).",
+		Rule:               "every byte string over a 31-symbol JSON alphabet ({ } [ ] : , quote backslash / u b 0 1 9 - + . e E t r f a l s n space LF é 0x1f 0x7f) up to length 6 (quick) / 7 (thorough), pruned only below prefixes that both the library and encoding/json reject because of an offending byte, plus generated documents (depth <= 7, all escape forms, random blanks) and their byte mutations / trailers, plus big documents (arrays / objects of 8..4097 members, nesting 8..4097 deep, strings and numbers 8..4097 units long, each also with a trailer and cut short); each text is checked in strict and trailing mode (texts up to 4 bytes and one in eight longer ones also with Len() before Check(), Check() repeated and all lexemes read before Check() on one object, which must answer like a fresh object): Check() vs encoding/json.Valid resp. a streaming Decoder, Len(), and for accepted texts the NextLexeme stream (nesting, spans, literal coverage) and the token tree vs encoding/json's. distinct_nontrivial = distinct texts (hashed).",
 		MinNontrivialQuick: 100000, MinNontrivialThorough: 1000000,
 		Assumptions: []string{"encoding/json (Valid, Decoder) is the independent RFC 8259 decoder", "invalid UTF-8 inside strings is not judged differently from encoding/json (which accepts it)",
 			"trailing mode reference: accepted iff a streaming json.Decoder decodes a first value"},
